@@ -163,6 +163,17 @@ def r20_1(ctx):
     f = P.own_method("Stage", "_ode")
     has_guard(ctx, f, lambda t, k: ("self.nz" in t and ("alg" in t)) and k in ("raise", "assert"), "Stage._ode: number of algebraic equations must match the number of algebraic variables",
               "add_alg equations without (enough) algebraic variables are dropped by DirectCollocation; missing equations leave algebraic variables undetermined", "if alg.numel() != self.nz: raise")
+    # 9d. a discrete-time model (set_next) cannot carry algebraic variables / equations: _diffeq has no place for them
+    f = P.own_method("Stage", "_diffeq")
+    has_guard(ctx, f, lambda t, k: ("self.nz" in t or "self._alg" in t) and k in ("raise", "assert"), "Stage._diffeq: algebraic variables / equations with a discrete-time model are rejected",
+              "set_next model with algebraic variables: the algebraic equation, and every constraint or objective term on z, silently vanish", "if self.nz>0 or self._alg: raise")
+    # 9e. a stage without a method: anything that needs a discretisation must be rejected, not only states and controls
+    f = P.own_method("DirectMethod", "transcribe")
+    has_guard(ctx, f, lambda t, k: "stage.nx>0" in t and "stage.nu>0" in t and "stage.nz>0" in t and "stage.nxq>0" in t and k == "raise",
+              "DirectMethod.transcribe: a stage with algebraic or quadrature states but no method raises", "stage without a method whose DAE / quadrature is silently ignored",
+              "if stage.nx>0 or stage.nu>0 or stage.nz>0 or stage.nxq>0 ...: raise")
+    has_guard(ctx, f, lambda t, k: "_constraints" in t and k == "raise", "DirectMethod.transcribe: path constraints on a stage without a method raise",
+              "path constraints (grid control / integrator / inf) of a stage without a method are silently ignored", "if any(stage._constraints[g] for g in <non-point grids>): raise", top_level=False)
     # 10. foreign symbols
     f = P.own_method("Stage", "_ode")
     has_guard(ctx, f, lambda t, k: t == "notret.has_free()" and k == "assert", "Stage._ode: symbols that do not belong to the stage are rejected", "foreign symbol in the dynamics", "assert not ret.has_free()")
@@ -325,3 +336,9 @@ def r20_3(ctx):
 def r20_4(ctx):
     from .c17 import r17_5
     r17_5(ctx)
+
+
+@rule("R20.5", min_instances=1, desc="an ill-posed OCP is rejected on every solve, not only on the first: a failed transcription is not cached (R13.10, shared with C13)")
+def r20_5(ctx):
+    from .c13 import r13_10
+    r13_10(ctx)
